@@ -308,6 +308,7 @@ func checkC13(p *Prog, r *Report) {
 	// whatever the shape of the buffer a layout fills (one year per call, or all years at once) — shared with C04.R4
 	c04Transform(p, r, "C13.weather-normalisation")
 	c13OptionalColumns(p, r)
+	c13OptionalValues(p, r)
 }
 
 func short(k string) string { return strings.TrimPrefix(k, "hermes.") }
@@ -907,6 +908,139 @@ func c13OptionalColumns(p *Prog, r *Report) {
 		})
 		if n == 0 {
 			r.Ob("optional:"+short(key), p.Pos(fi.Decl.Pos()), false, "no tolerant parse found in the reader (the optional columns were confirmed by hand)")
+		}
+	}
+}
+
+// C13.optional-values — both soil readers (and both measurement readers) keep
+// an optional value only when its text parses.  The store must use the result
+// of the parse made for it (the nearest one before the store) and must be
+// conditional on that parse's success — a store under the inverted test, or one
+// that reuses the previous column's result, makes one layout drop or invent a
+// value the other layout reads.
+func c13OptionalValues(p *Prog, r *Report) {
+	r.Rule("C13.optional-values", "optional values of the soil and measurement readers: every store of a tolerantly parsed number uses the result of the nearest preceding tolerant parse and is reached exactly when that parse succeeded (err == nil of the same call), each parse feeding one store; the horizon loops of the soil readers read the next line exactly when another horizon follows", 20)
+	for _, key := range []string{"hermes.LoadSoil", "hermes.LoadSoilCSV", "hermes.ExtractMeasuredDataCSV"} {
+		fi := p.Funcs[key]
+		if fi == nil {
+			r.Ob("reader:"+short(key), "-", false, "reader not found")
+			continue
+		}
+		info := fi.Pkg.TypesInfo
+		body := fi.Decl.Body
+		type parse struct {
+			pos      token.Pos
+			val, err types.Object
+		}
+		var parses []parse
+		ast.Inspect(body, func(n ast.Node) bool {
+			as, ok := n.(*ast.AssignStmt)
+			if !ok || len(as.Lhs) != 2 || len(as.Rhs) != 1 {
+				return true
+			}
+			c, ok := as.Rhs[0].(*ast.CallExpr)
+			if !ok {
+				return true
+			}
+			if f := callee(info, c); f != nil && f.Name() == "TryValAsFloat" {
+				parses = append(parses, parse{as.Pos(), useObj(info, as.Lhs[0]), useObj(info, as.Lhs[1])})
+			}
+			return true
+		})
+		n := 0
+		used := map[token.Pos]int{}
+		ast.Inspect(body, func(nd ast.Node) bool {
+			as, ok := nd.(*ast.AssignStmt)
+			if !ok || len(as.Lhs) != 1 || len(as.Rhs) != 1 || as.Tok != token.ASSIGN {
+				return true
+			}
+			vo := useObj(info, as.Rhs[0])
+			if vo == nil {
+				return true
+			}
+			// nearest parse before the store
+			var near *parse
+			for i := range parses {
+				if parses[i].pos < as.Pos() && (near == nil || parses[i].pos > near.pos) {
+					near = &parses[i]
+				}
+			}
+			isParsed := false
+			for i := range parses {
+				if parses[i].val == vo {
+					isParsed = true
+				}
+			}
+			if !isParsed {
+				return true
+			}
+			n++
+			var bad []string
+			if near != nil {
+				used[near.pos]++
+				if used[near.pos] > 1 {
+					bad = append(bad, "the parse at "+p.Pos(near.pos)+" already fed another store: this value was not parsed from its own field")
+				}
+			}
+			if near == nil || near.val != vo {
+				bad = append(bad, "the stored variable is not the result of the nearest preceding parse")
+			} else {
+				conds, _ := astPathConds(info, body, as)
+				okE := false
+				for _, c := range conds {
+					if !c.Neg && isNilCmp(info, c.E, near.err, token.EQL) {
+						okE = true
+					}
+					if c.Neg && c.Exit == nil && isNilCmp(info, c.E, near.err, token.EQL) {
+						bad = append(bad, "stored when the parse FAILED")
+					}
+				}
+				if !okE {
+					bad = append(bad, "not conditional on the success of its parse")
+				}
+			}
+			r.Ob(fmt.Sprintf("optional-store:%s:%s", short(key), types.ExprString(as.Lhs[0])), p.Pos(as.Pos()), len(bad) == 0, types.ExprString(as.Lhs[0])+" = "+types.ExprString(as.Rhs[0])+problems(bad))
+			return true
+		})
+		if n == 0 {
+			r.Ob("optional-store:"+short(key), p.Pos(fi.Decl.Pos()), false, "no store of a tolerantly parsed value found")
+		}
+		// horizons: the loop over the horizons of a profile reads the next line at the end of every iteration but the last
+		if key == "hermes.LoadSoil" || key == "hermes.LoadSoilCSV" {
+			okAdv, det := false, "no loop over the horizons that ends by reading the next line"
+			ast.Inspect(body, func(nd ast.Node) bool {
+				fs, ok := nd.(*ast.ForStmt)
+				if !ok || fs.Cond == nil || len(fs.Body.List) == 0 {
+					return true
+				}
+				cb, ok := fs.Cond.(*ast.BinaryExpr)
+				if !ok || cb.Op != token.LSS || !strings.HasSuffix(types.ExprString(cb.Y), ".AZHO") {
+					return true
+				}
+				iObj := useObj(info, cb.X)
+				last, ok := fs.Body.List[len(fs.Body.List)-1].(*ast.IfStmt)
+				if !ok {
+					det = "the horizon loop does not end with the conditional read of the next line"
+					return true
+				}
+				c := normExpr(info, last.Cond, iObj)
+				want := "(($i + 1) < " + normExpr(info, cb.Y, iObj) + ")"
+				want2 := "((1 + $i) < " + normExpr(info, cb.Y, iObj) + ")"
+				reads := false
+				for _, st := range last.Body.List {
+					if as, ok := st.(*ast.AssignStmt); ok && len(as.Rhs) == 1 {
+						if call, ok := as.Rhs[0].(*ast.CallExpr); ok {
+							if f := callee(info, call); f != nil && f.Name() == "LineInut" {
+								reads = true
+							}
+						}
+					}
+				}
+				okAdv = (c == want || c == want2) && reads && last.Else == nil
+				det = fmt.Sprintf("horizon loop ends with: if %s { next line read: %v }", c, reads)
+				return true
+			})
+			r.Ob("horizon-advance:"+short(key), p.Pos(fi.Decl.Pos()), okAdv, det+" (must be exactly 'another horizon follows': otherwise every horizon is read from the first line, or the line after the profile is consumed)")
 		}
 	}
 }
